@@ -209,6 +209,20 @@ def rule_R4(ctx, R):
                 res.bad(Violation("R4", f["path"], "fail-edge", bad + " (path: %s)" % p.trace()[:300], *_fnloc(ctx, f)))
                 break
         if not bad:
+            # the refusal need not come from the try itself: whenever the call answers with the bare key (an Err that carries
+            # the key and no guard), everything it acquired has been released again
+            for p in paths:
+                v = p.value
+                if p.kind != "ret" or not (v and v[0] == "agg" and v[2] == "std::result::Result" and v[3] == 1 and _count_op(v, oid) == 1):
+                    continue
+                if val_contains(v, lambda x: x[0] == "op" and x[2] and x[2][0] == "assume"):
+                    continue     # the Err carries a guard (a poisoned acquisition): the hold lives on inside it
+                held = [r for r, m in p.locks.items() if m in ("W", "R") and any(e.get("recv") == r for e in p.ev("TRY", "ACQ"))]
+                if held:
+                    bad = "the key is handed back alone (no guard) while %s is still held" % ctx.arg_name(f, held[0])
+                    res.bad(Violation("R4", f["path"], "fail-edge", bad + " (path: %s)" % p.trace()[:300], *_fnloc(ctx, f)))
+                    break
+        if not bad:
             if nfail == 0:
                 res.bad(Violation("R4", f["path"], "no-fail-edge", "TRY-role function has no failing path: it cannot report "
                                   "contention without waiting", *_fnloc(ctx, f)))
